@@ -43,6 +43,8 @@ pub(crate) mod db;
 pub(crate) mod engine;
 pub(crate) mod global;
 pub(crate) mod server;
+#[cfg(feature = "verif")]
+pub mod verif_hooks;
 
 pub use api::Brc20ProgApiClient;
 pub use global::Brc20ProgConfig;
